@@ -69,9 +69,15 @@ claim('C05',
       COMMON_NOTE + 'Rust name resolution is not modelled. Known finding K1.',
       'Coq proof (freshness of generated names) + rustc type-check of real output', 'DESIGN.md §5 C05')
 claim('C06',
-      'Coq theorems on the emitter model (unit-like fieldsets, definition headers) + token-exact comparison of the real type definitions with '
+      'Coq theorems on the emitter model: for every source the model of generate accepts, the emitted text after its header is the terminal enum '
+      '(`pub enum <name> { <variants> }` after its attributes), then one definition per nonterminal in declaration order, then `pub fn parse<P>(src: P) '
+      '-> Result<<start type>, Option<<terminal enum>>> where P: IntoIterator<Item = <terminal enum>> {` (template shape checked by vm_compute on the '
+      'template regenerated from table_to_rust.rs on this run); each definition is `typedef_spec` of its declaration — attributes, `pub struct N`/`pub enum N`, '
+      'variants in order, and per fieldset exactly the used (non-`_`) fields in order, `pub` in structs, `Box<N>` for a nonterminal-typed field and the '
+      'declared payload type for a terminal-typed one, unit-like when no field is used (Emit/TypedefSpec.v, Emit/ModuleShape.v, C06_module_declares). '
+      'What rustc makes of that text is decided by the check: token-exact comparison of the real type definitions with '
       'the shapes expected from the declarations + a rustc-checked client using every declared item and the parse signature from outside the module.',
-      COMMON_NOTE, 'Coq proof (emitter lemmas) + expected-item oracle + rustc client', 'DESIGN.md §5 C06')
+      COMMON_NOTE, 'Coq proof (emitter specification in the property\'s terms: filter/map over declarations; template shape by vm_compute) + expected-item oracle + rustc client', 'DESIGN.md §5 C06')
 claim('C07',
       'Coq theorem, for EVERY string and every iteration order of the hash collections: the model of generate never returns Panic '
       '(PipelineProofs.generate_never_panics) — every unwrap/expect/index/slice/"Impossible" arm of the crate is an explicit Panic in the model '
